@@ -65,6 +65,16 @@ def protocol_class(kind):
     return Overrides
 
 
+def server_kwargs(case):
+    """How the case's server is constructed: the protocol class, and whether notebook synchronisation is on"""
+    kw = {"protocol_cls": protocol_class(case.get("proto", 0))}
+    if case.get("nbsync"):
+        from lsprotocol import types
+        kw["notebook_document_sync"] = types.NotebookDocumentSyncOptions(
+            notebook_selector=[types.NotebookDocumentFilterWithCells(cells=[types.NotebookCellLanguage(language="python")])])
+    return kw
+
+
 def reg_fields(r):
     r = list(r) + [0, 0][:max(0, 9 - len(r))]
     return r[:9]
@@ -124,7 +134,8 @@ BUILTIN = {"init": "initialize", "inited": "initialized", "open": "textDocument/
            "change": "textDocument/didChange", "close": "textDocument/didClose",
            "folders": "workspace/didChangeWorkspaceFolders", "trace": "$/setTrace",
            "shutdown": "shutdown", "exec": "workspace/executeCommand",
-           "cancel": "window/workDoneProgress/cancel"}
+           "cancel": "window/workDoneProgress/cancel", "nbopen": "notebookDocument/didOpen",
+           "nbchange": "notebookDocument/didChange", "nbclose": "notebookDocument/didClose"}
 TRACE = ["off", "messages", "verbose"]
 USER_METHODS = ["u/a", "u/b"]
 COMMANDS = ["cmd.a", "cmd.b"]
@@ -136,6 +147,13 @@ def meth_of(m):
 
 def doc_uri(u):
     return "file:///d%d.txt" % u
+
+
+def nb_uri(n):
+    return "file:///n%d.ipynb" % n
+
+
+NB_KEY = 1000        # Model.Dispatch.nb_key: notebooks live in the document table under 1000 + n
 
 
 def folder(u):
@@ -175,6 +193,15 @@ def wire(m):
         o["params"] = {"token": m["tok"]}
     elif c == "other":
         o["params"] = {"v": m["v"]}
+    elif c == "nbopen":
+        o["params"] = {"notebookDocument": {"uri": nb_uri(m["n"]), "notebookType": "jupyter-notebook", "version": m["v"],
+                                            "cells": [{"kind": 2, "document": doc_uri(m["cell"])}]},
+                       "cellTextDocuments": [{"uri": doc_uri(m["cell"]), "languageId": "python", "version": m["v"],
+                                              "text": "T%d" % m["t"]}]}
+    elif c == "nbchange":
+        o["params"] = {"notebookDocument": {"uri": nb_uri(m["n"]), "version": m["v"]}, "change": {}}
+    elif c == "nbclose":
+        o["params"] = {"notebookDocument": {"uri": nb_uri(m["n"])}, "cellTextDocuments": [{"uri": doc_uri(m["cell"])}]}
     return json.dumps(o).encode()
 
 
@@ -213,6 +240,15 @@ def canon_arg(x):
             return ["exec", x.command, x.arguments[0]]
         if n == "WorkDoneProgressCancelParams":
             return ["cancel", x.token]
+        if n == "DidOpenNotebookDocumentParams":
+            c = x.cell_text_documents[0]
+            return ["nbopen", num(x.notebook_document.uri, "file:///n", ".ipynb"), x.notebook_document.version,
+                    num(c.uri, "file:///d", ".txt"), num(c.text, "T")]
+        if n == "DidChangeNotebookDocumentParams":
+            return ["nbchange", num(x.notebook_document.uri, "file:///n", ".ipynb"), x.notebook_document.version]
+        if n == "DidCloseNotebookDocumentParams":
+            return ["nbclose", num(x.notebook_document.uri, "file:///n", ".ipynb"),
+                    num(x.cell_text_documents[0].uri, "file:///d", ".txt")]
     except Exception as ex:        # noqa
         return ["?", n, type(ex).__name__]
     return ["?", n]
@@ -227,7 +263,7 @@ class Sched14(sched.Sched):
         self.seen14 = [0, 0]
         self.nrecv = 0
         super().__init__({"writer": "blocking", "hook": "default", "wfail": None},
-                         server_kwargs={"protocol_cls": protocol_class(case.get("proto", 0))})
+                         server_kwargs=server_kwargs(case))
         fm = self.protocol.fm
         for name in list(fm.builtin_features):
             fm.add_builtin_feature(name, self._wrap_builtin(name, fm.builtin_features[name]))
@@ -257,7 +293,7 @@ class Sched14(sched.Sched):
         def body(first, more):
             inj = first is S.server
             args = tuple(more) if inj else (first,) + tuple(more)
-            S._enter(name, part, fid, inj, args)
+            S._enter(name, part, fid, inj, args, first if inj else S.server)
             if rz == 1:
                 raise RuntimeError("scripted failure")
             if rz == 2:
@@ -287,24 +323,30 @@ class Sched14(sched.Sched):
         job = getattr(self.tls, "job", None)
         return job.ctx if job is not None else None
 
-    def snapshot(self):
+    def snapshot(self, srv=None):
+        """What a handler sees.  A user's function looks through what it is given: `srv` is the server
+        object it holds (the injected `ls`, else the server its module created) and it reads the public
+        `srv.workspace` / `srv.work_done_progress`; a built-in (srv=None) looks at its own protocol."""
         p = self.protocol
         try:
-            w = p.workspace
+            w = p.workspace if srv is None else srv.workspace
         except RuntimeError:
             w = None
-        docs = sorted([num(u, "file:///d", ".txt"), d.version, num(d.source, "T")]
-                      for u, d in (w.text_documents.items() if w else []))
+        prog = p.progress if srv is None else srv.work_done_progress
+        docs = [[num(u, "file:///d", ".txt"), d.version, num(d.source, "T")]
+                for u, d in (w.text_documents.items() if w else [])]
+        docs += [[NB_KEY + num(u, "file:///n", ".ipynb"), nb.version, 0]
+                 for u, nb in (w.notebook_documents.items() if w else [])]
         folders = sorted(num(u, "file:///f") for u in (w.folders if w else []))
         tr = TRACE.index(getattr(p.trace, "value", p.trace))
-        canc = sorted(t for t, f in p.progress.tokens.items() if f.cancelled())
-        return [w is not None, docs, folders, tr, self.flag_shutdown(), canc]
+        canc = sorted(t for t, f in prog.tokens.items() if f.cancelled())
+        return [w is not None, sorted(docs), folders, tr, self.flag_shutdown(), canc]
 
-    def _enter(self, name, part, fid, inj, args):
+    def _enter(self, name, part, fid, inj, args, srv=None):
         ctx = self._ctx14()
         onloop = threading.current_thread() is self.main
         self.log14.append([ctx["k"] if ctx else -1, name, part, fid, "loop" if onloop else "pool", bool(inj),
-                           [canon_arg(a) for a in args], self.snapshot()])
+                           [canon_arg(a) for a in args], self.snapshot(srv)])
         if not onloop:
             job = getattr(self.tls, "job", None)
             if job is not None:
@@ -393,7 +435,7 @@ class Real14(Sched14):
         self.tls = threading.local()
         self.cur = None
         self.loop = asyncio.new_event_loop()
-        self.server = LanguageServer("c14-real", "v1", protocol_cls=protocol_class(case.get("proto", 0)))
+        self.server = LanguageServer("c14-real", "v1", **server_kwargs(case))
         self.protocol = self.server.protocol
         self._register({})
         S = self
@@ -541,6 +583,12 @@ def enc_call(m):
         return [8, m["id"]] + enc_str(m["cmd"]) + [m["a"]]
     if c == "cancel":
         return [9, m["tok"]]
+    if c == "nbopen":
+        return [11, m["n"], m["v"], m["cell"], m["t"]]
+    if c == "nbchange":
+        return [12, m["n"], m["v"]]
+    if c == "nbclose":
+        return [13, m["n"], m["cell"]]
     assert m["name"].startswith("u/")
     return [10] + ([0] if m.get("id") is None else [1, m["id"]]) + enc_str(m["name"][2:]) + [m["v"]]
 
@@ -604,6 +652,12 @@ class _Cur(sched._Cur):
             return ["exec", self.str(), self.int()]
         if t == 9:
             return ["cancel", self.int()]
+        if t == 11:
+            return ["nbopen", self.int(), self.int(), self.int(), self.int()]
+        if t == 12:
+            return ["nbchange", self.int(), self.int()]
+        if t == 13:
+            return ["nbclose", self.int(), self.int()]
         self.str()
         return ["other", self.int()]
 
@@ -757,6 +811,14 @@ def mk_msg(c, ids, rng=None, **kw):
         m.update(cmd=pick(["cmd.a", "cmd.a", "cmd.b", "cmd.none", "u/a", "textDocument/didOpen"]), a=pick([9, 3]))
     elif c == "cancel":
         m.update(tok=pick([1, 2, 3]))
+    elif c == "nbopen":
+        n = pick([1, 2])
+        m.update(n=n, v=pick([1, 4]), cell=100 + n, t=pick([7, 8]))
+    elif c == "nbchange":
+        m.update(n=pick([1, 2]), v=pick([5, 6]))
+    elif c == "nbclose":
+        n = pick([1, 2])
+        m.update(n=n, cell=100 + n)
     elif c == "other":
         req = pick([True, False])
         if req:
@@ -898,6 +960,57 @@ def proto_cases():
     return out
 
 
+def notebook_cases():
+    """The three notebook built-ins x user handler kind {none, sync, async, thread above / below} x outcome,
+    on a default-constructed server and on one constructed with notebook_document_sync; the user's
+    handler must find the notebook and its cell the built-in installed / updated / removed."""
+    out = []
+    kinds = [None, (0, T_NONE), (1, T_NONE), (0, T_ABOVE), (0, T_BELOW)]
+    for nbsync in (0, 1):
+        for bi, b in enumerate(["nbopen", "nbchange", "nbclose"]):
+            for ki, kd in enumerate(kinds):
+                for rz in ((0,) if kd is None else (0, 1)):
+                    for pre in (True, False):
+                        regs = [] if kd is None else [[0, BUILTIN[b], kd[0], (bi + ki + rz + nbsync) % 5, kd[1], 1, rz]]
+                        ids = [0]
+                        evs = [["recv", mk_msg("init", ids)]] if pre else []
+                        if b != "nbopen" and pre:
+                            evs.append(["recv", mk_msg("nbopen", ids, n=1, cell=101)])
+                        evs.append(["recv", mk_msg(b, ids, **({"n": 1, "cell": 101} if b != "nbchange" else {"n": 1}))])
+                        evs.append(["recv", mk_msg("nbopen", ids, n=2, cell=102)])     # the workspace moves on
+                        c = {"t": "notebook", "regs": regs, "tokens": [], "evs": evs + DRAIN[:4]}
+                        if nbsync:
+                            c["nbsync"] = 1
+                        out.append(c)
+    return out
+
+
+def reinit_cases():
+    """A second `initialize` (same folders / other folders) in one connection, then didOpen / didChange /
+    a notebook with user handlers of every kind that look at the workspace THROUGH THE SERVER THEY HOLD
+    (the injected `ls`, or their module's server): they must see the workspace of the second session."""
+    out = []
+    kinds = [(0, T_NONE), (1, T_NONE), (0, T_ABOVE)]
+    n = 0
+    for f2 in ([1, 2], [3]):
+        for kd in kinds:
+            for par in (0, 1, 2):
+                n += 1
+                regs = [[0, BUILTIN["open"], kd[0], par, kd[1], 1, 0], [0, BUILTIN["change"], kd[0], (par + 1) % 3, kd[1], 2, 0],
+                        [0, BUILTIN["nbopen"], kd[0], (par + 2) % 3, kd[1], 3, 0], [0, "u/a", 0, par, T_NONE, 4, 0]]
+                ids = [0]
+                evs = [["recv", mk_msg("init", ids, folders=[1, 2])],
+                       ["recv", mk_msg("open", ids, u=1, v=1, t=1)]] + DRAIN[:4] + \
+                      [["recv", mk_msg("other", ids, name="u/a", id=None)],
+                       ["recv", mk_msg("init", ids, folders=f2)],
+                       ["recv", mk_msg("other", ids, name="u/a", id=None)],
+                       ["recv", mk_msg("open", ids, u=2, v=3, t=2)], ["task", 1], ["jstart", 1], ["cb", 1], ["jfin", 1],
+                       ["recv", mk_msg("change", ids, u=2, v=4, ts=[5])], ["task", 2], ["jstart", 2], ["cb", 2], ["jfin", 2],
+                       ["recv", mk_msg("nbopen", ids, n=1, cell=101)], ["task", 3], ["jstart", 3], ["cb", 3], ["jfin", 3]]
+                out.append({"t": "reinit", "regs": regs, "tokens": [1], "evs": evs})
+    return out
+
+
 def sig_table():
     """(par | None, rest, ck): every first parameter incl. none at all x rest x every kind of callable
     incl. bound methods (which the decorators cannot register: setattr fails) - for the function-level
@@ -948,7 +1061,8 @@ def matrix_cases():
     return out
 
 
-NAMES_F = [BUILTIN[b] for b in BKEYS] + ["u/a", "u/a", "u/b", "u/x", "textDocument/didOpen", "textDocument/didChange",
+NAMES_F = [BUILTIN[b] for b in BKEYS] + ["notebookDocument/didOpen", "notebookDocument/didChange",
+                                          "notebookDocument/didClose", "u/a", "u/a", "u/b", "u/x", "textDocument/didOpen", "textDocument/didChange",
                                           "workspace/executeCommand", "initialize", "shutdown"]
 
 
@@ -985,8 +1099,15 @@ def scenario(rng):
         inited = True
     for _ in range(rng.randint(3, 11)):
         c = rng.choice(["open", "open", "change", "change", "close", "folders", "trace", "cancel", "inited",
-                        "exec", "exec", "other", "other", "other", "init" if rng.random() < 0.2 else "open"])
+                        "exec", "exec", "other", "other", "other", "init" if rng.random() < 0.25 else "open",
+                        "nbopen", "nbchange", "nbclose"])
         m = mk_msg(c, ids, rng)
+        if not wild and c == "nbchange" and ("nb", m["n"]) not in opened:
+            m = mk_msg("nbopen", ids, rng, n=m["n"], cell=100 + m["n"])
+        if m["c"] == "nbopen" and inited:
+            opened.add(("nb", m["n"]))
+        elif m["c"] == "nbclose":
+            opened.discard(("nb", m["n"]))
         if not wild:
             if c in ("change", "close") and m["u"] not in opened:
                 m = mk_msg("open", ids, rng, u=m["u"])
@@ -1013,6 +1134,8 @@ def scenario(rng):
     case = {"t": "seq", "regs": regs, "tokens": [1, 2]}
     if rng.random() < 0.4:
         case["proto"] = rng.randrange(1, 5)
+    if rng.random() < 0.3:
+        case["nbsync"] = 1
     return case, [["recv", m] for m in msgs]
 
 
@@ -1177,7 +1300,7 @@ class C14(core.Property):
                    "user_failure_keeps_builtin", "builtin_reply_kept", "no_handler_nothing", "recv_gated",
                    "literal_inside_guard", "delivery_exact", "shapes_in_context", "see_faithful", "inject_decision",
                    "inject_iff_asked_g", "inject_only_if_asked_g", "inject_refuted_unresolvable_hints",
-                   "shapes_in_context_g", "thread_keeps", "isb_known", "shared_name_pairs", "custom_builtin_once",
+                   "shapes_in_context_g", "thread_keeps", "isb_known", "shared_name_pairs", "custom_builtin_once", "notebook_builtin_first",
                    "C14_refuted_unresolvable_hints", "C14_shapes", "C14_partial", "C14_refuted_builtin_raises", "C14_refuted",
                    "C14_nonvacuous", "C14_reference_agrees",
                    # the link with Model/Endpoint.v (C01/C08/C09's model): Proofs/LinkDispatchEndpoint.v
@@ -1214,6 +1337,8 @@ class C14(core.Property):
         cases.extend(sig_shape_cases())
         cases.extend(pair_cases())
         cases.extend(proto_cases())
+        cases.extend(notebook_cases())
+        cases.extend(reinit_cases())
         cases.extend(matrix_cases())
         n = chk.n(260, 6000)
         cases.extend(interleave(chk.rng, [scenario(chk.rng) for _ in range(n)]))
@@ -1292,7 +1417,8 @@ class C14(core.Property):
     def search(self, chk):
         """The tie or a proof broke: look for an input on which the property itself fails (judged by
         the reference S alone, inside the guard)."""
-        cases = shape_cases() + sig_shape_cases() + pair_cases() + proto_cases() + matrix_cases() + interleave(chk.rng, [scenario(chk.rng) for _ in range(300)])
+        cases = (shape_cases() + sig_shape_cases() + pair_cases() + proto_cases() + notebook_cases() + reinit_cases()
+                 + matrix_cases() + interleave(chk.rng, [scenario(chk.rng) for _ in range(300)]))
         out = []
         for r in core.evaluate(self, chk, cases):
             if r["guard"] and r["S"] is not None and not self.satisfies(r["case"], r["impl"], r["S"]):
@@ -1309,6 +1435,7 @@ class C14(core.Property):
         for c in cases:
             add("kind/" + c.get("t", "corpus"))
             add("protocol_cls/" + PROTO[c.get("proto", 0)])
+            add("notebook_document_sync/%s" % bool(c.get("nbsync")))
             add("len/%d" % (10 * (len(c["evs"]) // 10)))
             feats = {}
             for r in c["regs"]:
